@@ -781,6 +781,15 @@ pub fn check_prog(s: &mut Sink, eng: Eng, c: &ProgCase, rp: &Value) -> ProgStats
     let mut compiled = false;
     for (n, (pkt, mb)) in c.inputs.iter().enumerate() {
         let (end, m) = &models[n];
+        if n > 0 && matches!(c.kind, VmKind::Fixed(..)) {
+            // the fixed VM's internal buffer keeps what the program stored in it (allowed, C10):
+            // every input starts from a fresh VM, as the reference machine does
+            r = match catch(|| Runner::new(c.kind, &bytes, pkt_len, mb_len, c.helpers)) {
+                Ok(Ok(r)) => r,
+                _ => return st,
+            };
+            compiled = false;
+        }
         if matches!(end, End::Malformed(_)) {
             // the real verifier accepted something the reference machine cannot run: C05/C06 territory
             continue;
@@ -806,6 +815,15 @@ pub fn check_prog(s: &mut Sink, eng: Eng, c: &ProgCase, rp: &Value) -> ProgStats
         if !defined || !matches!(io.out, Out::Ok(_)) {
             s.outcome("not-compared(interpreter-not-ok-or-undefined)", 1);
             continue;
+        }
+        if matches!(c.kind, VmKind::Fixed(..)) {
+            // the interpreter run above may have stored into the VM's internal buffer: the
+            // compiled run starts from a fresh VM too
+            r = match catch(|| Runner::new(c.kind, &bytes, pkt_len, mb_len, c.helpers)) {
+                Ok(Ok(r)) => r,
+                _ => return st,
+            };
+            compiled = false;
         }
         if !compiled {
             match catch(|| r.vm.compile(eng)) {
@@ -947,8 +965,20 @@ pub fn l2_packet(st: &[u64; 5]) -> Vec<u8> {
     pkt
 }
 
+pub const L2_FIXED: VmKind = VmKind::Fixed(0x100, 0x108);
+
 pub fn l2_program(seq: &[&Vec<I>]) -> Vec<I> {
-    let mut p = vec![isa::mov64r(7, 1)];
+    l2_program_for(VmKind::Raw, seq)
+}
+
+/// The sequence template for a VM kind: the data area (inputs, dump) is the packet for raw and
+/// fixed-metadata VMs (the latter fetch the packet pointer from the metadata buffer) and the
+/// metadata buffer itself for the metadata VM.
+pub fn l2_program_for(kind: VmKind, seq: &[&Vec<I>]) -> Vec<I> {
+    let mut p = match kind {
+        VmKind::Fixed(a, _) => vec![isa::ldxdw(7, 1, a as i16)],
+        _ => vec![isa::mov64r(7, 1)],
+    };
     for r in L2_REGS {
         p.push(isa::ldxdw(r, 7, 8 * r as i16));
     }
@@ -976,8 +1006,13 @@ pub fn run_layer2(s: &mut Sink, eng: Eng, g: &mut u64) {
     let depth = if thorough { 4 } else { 3 };
     let alpha = a2_alphabet();
     let n = alpha.len();
-    let inputs: Vec<(Vec<u8>, Vec<u8>)> = l2_states().iter().map(|st| (l2_packet(st), vec![])).collect();
-    s.meta.insert("layer2".into(), json!({"alphabet_A2": alpha.iter().map(|a| a.0).collect::<Vec<_>>(), "depth": depth, "initial_states": 3}));
+    s.meta.insert("layer2".into(), json!({"alphabet_A2": alpha.iter().map(|a| a.0).collect::<Vec<_>>(), "depth": depth, "initial_states": 3, "vm_kinds": "raw (full depth), mbuff and fixed-mbuff (depth 2; quick) / (depth 3; thorough)"}));
+    let small: Vec<u8> = (0..16u8).map(|k| 0xd0 + k).collect();
+    for (kind, depth) in [(VmKind::Raw, depth), (VmKind::Mbuff, depth - 1), (L2_FIXED, depth - 1)] {
+    let inputs: Vec<(Vec<u8>, Vec<u8>)> = l2_states().iter().map(|st| match kind {
+        VmKind::Mbuff => (small.clone(), l2_packet(st)),
+        _ => (l2_packet(st), vec![]),
+    }).collect();
     // group = (first, second) instruction; lengths 1 and 2 are done in the groups with second == 0 / first
     for a in 0..n {
         for b in 0..n {
@@ -1016,8 +1051,9 @@ pub fn run_layer2(s: &mut Sink, eng: Eng, g: &mut u64) {
                 }
                 for sq in seqs {
                     let parts: Vec<&Vec<I>> = sq.iter().map(|k| &alpha2[*k].1).collect();
-                    let prog = l2_program(&parts);
-                    let c = ProgCase { kind: VmKind::Raw, prog: &prog, inputs: &inputs2, helpers: true, class: "seq", max_steps: 10_000, has_local_call: false };
+                    let prog = l2_program_for(kind, &parts);
+                    let class = match kind { VmKind::Raw => "seq", VmKind::Mbuff => "seq@mbuff", _ => "seq@fixed-mbuff" };
+                    let c = ProgCase { kind, prog: &prog, inputs: &inputs2, helpers: true, class, max_steps: 10_000, has_local_call: false };
                     let rp = prog_replay(&c, eng);
                     let st = check_prog(cs, eng, &c, &rp);
                     if st.rejected {
@@ -1027,6 +1063,7 @@ pub fn run_layer2(s: &mut Sink, eng: Eng, g: &mut u64) {
                 }
             });
         }
+    }
     }
     s.done("layer 2: sequences");
 }
